@@ -301,7 +301,7 @@ def witness(eng, oc):
 def run(oc, tier, seed):
     rng = random.Random(seed)
     eng = lib.Engine()
-    n = 12 if tier == "quick" else 200
+    n = 12 if tier == "quick" else 90       # (histories carry forced / frequent special tails: ~8 s each)
     oc.rule = ("histories of 4-8 steps over 2-3 pages (edit a note, add / delete a note, edit the header, add a page, next day, "
                "plain reindex; every third history also explicit-path reindex, delete and rename), always ending with a plain "
                "reindex; after every index command the per-page observation (file exists, stored hash current/stale/none, "
